@@ -266,12 +266,12 @@ def _snap(v, seen, ignore):
         return ("enum", type(v).__name__, v.name)
     if isinstance(v, (type, types.FunctionType, types.MethodType, types.BuiltinFunctionType, types.ModuleType)):
         return ("id", id(v) if not isinstance(v, types.MethodType) else (id(v.__func__), id(v.__self__)))
-    if id(v) in seen:
-        return ("ref", seen[id(v)])
+    r = seen.ref(id(v))
+    if r is not None:
+        return ("ref", r)
     if isinstance(v, tuple):
         return ("tuple", [_snap(x, seen, ignore) for x in v])
-    seen[id(v)] = len(seen)
-    idx = seen[id(v)]
+    idx = seen.new(id(v))
     if isinstance(v, _LazyMap):
         return ("lazymap", idx, v, len(v._writes))
     if isinstance(v, dict):
@@ -283,16 +283,26 @@ def _snap(v, seen, ignore):
     flds = {}
     d = getattr(v, "__dict__", None)
     if d is not None:
+        from .fields import baseline
+        pkg = (type(v).__module__ or "").startswith("architecture_simulator")
         for f, x in d.items():
             if f in ignore:
                 continue
-            flds[f] = _snap(x, seen, ignore)
+            if pkg and f not in baseline():
+                seen.depth_u += 1           # (see api_sym.snap: a numbering of its own below unmodelled attributes)
+                try:
+                    flds[f] = _snap(x, seen, ignore)
+                finally:
+                    seen.depth_u -= 1
+            else:
+                flds[f] = _snap(x, seen, ignore)
     items = [_snap(x, seen, ignore) for x in list.__iter__(v)] if isinstance(v, list) else None
     return ("obj", type(v).__name__, idx, flds, items)
 
 
 def snapshot(*roots, ignore=()):
-    seen = {}
+    from .fields import Seen
+    seen = Seen()
     return _Snap(tuple(_snap(x, seen, set(ignore)) for x in roots))
 
 
